@@ -395,6 +395,82 @@ def kernel_diff(ctx, pairs, quick):
     ctx.tie("pg-kernels", counts=n_counts + 7, enough=n_enough, plies=len(pairs) * (n_pl + 1), pairs=len(pairs))
 
 
+def fen_squares(fen):
+    """{square index (a1 = 0): piece letter} of a FEN"""
+    out, r, c = {}, 7, 0
+    for ch in fen.split()[0]:
+        if ch == "/": r -= 1; c = 0
+        elif ch.isdigit(): c += int(ch)
+        else: out[r * 8 + c] = ch; c += 1
+    return out
+
+
+def deadlock_diff(ctx, games, quick):
+    """`ProofGame::computeDeadlockedPieces` against the model `PG.deadlocked` / `PG.verdict` whose soundness is
+    `Props.C16.deadlocked_pieces_sound_partial`: positions of generated games x blocked masks (subsets of the occupied squares)"""
+    r = ctx.rng
+    n = 6000 if quick else 80000
+    pool = [(g, k) for g in games for k in g.fens]
+    lines, shapes, meta = [], {}, []
+    def add(shape, mask, fp, fg):
+        lines.append(f"pg deadlock {mask} {fp} {fg}"); shapes[shape] = shapes.get(shape, 0) + 1; meta.append((g, k))
+    while len(lines) < n and pool:
+        g, k = pool[r.randrange(len(pool))]
+        fp = g.fens[k]
+        later = [j for j in g.fens if j >= k]
+        fg = g.fens[r.choice(later)] if r.random() < 0.5 else fp
+        sq = fen_squares(fp)
+        occ = sorted(sq)
+        style = r.randrange(7)
+        if style == 0: m = [q for q in occ if r.random() < 0.25]; shape = "sparse"
+        elif style == 1: m = [q for q in occ if r.random() < 0.85]; shape = "dense"
+        elif style == 2: m = [q for q in occ if sq[q] in "Pp" or r.random() < 0.5]; shape = "all-pawns+half"
+        elif style == 3: m = [q for q in occ if sq[q] in "Pp" and r.random() < 0.5 or sq[q] not in "PpKk" and r.random() < 0.9]; shape = "half-pawns+pieces"
+        elif style == 4: m = [q for q in occ if sq[q] not in "Kk" and r.random() < 0.95]; shape = "all-but-kings"
+        elif style == 5:
+            # the neighbourhood of one king is blocked, the pawns are left to the loops
+            ks = [q for q in occ if sq[q] in "Kk"]; kq = r.choice(ks)
+            m = [q for q in occ if sq[q] not in "PpKk" and (max(abs(q % 8 - kq % 8), abs(q // 8 - kq // 8)) <= 2 or r.random() < 0.6)]; shape = "king-zone"
+        else: m = []; shape = "empty"
+        add(shape, sum(1 << q for q in m), fp, fg)
+    lines += ["pg deadlock 1 8/8/8/8/8/8/8/K6k w - - 0 1", "pg deadlock x " + " ".join(games[0].fens[0].split() * 2), "pg deadlock"] if games else []
+    out1, out2, mis = vlib.diff_lines(ctx, "pg-deadlock", lines, "plain")
+    ctx.count(len(lines))
+    for l in lines[:2]: ctx.sample({"op": l})
+    nd = sum(1 for o, l in zip(out1, lines) if o.split()[:1] and o.split()[0].isdigit() and int(o.split()[0]) != int(l.split()[2]))
+    nrej = sum(1 for o in out1 if o.endswith(" 0"))
+    ctx.tie("pg-deadlock", lines=len(lines), mask_shapes=json.dumps(shapes), with_deadlocked_pieces=nd, rejected=nrej,
+            theorem="Props.C16.deadlocked_pieces_sound_partial / deadlocked_reject_sound_partial")
+    print(f"[C16] deadlock differential: {len(lines)} (position, goal, blocked) triples, {nd} with deadlocked pieces, {nrej} rejected, shapes {shapes}", flush=True)
+    if nd == 0 and lines:
+        ctx.violation("generator coverage: no blocked mask produced a deadlocked piece", {"kind": "coverage"}, no_input=True)
+    if mis is not None and mis < len(lines):
+        rp = {"kind": "correspondence", "tie": "pg-deadlock", "theorem_scope": "Props.C16.deadlocked_pieces_sound_partial (the code no longer is the function proved sound)",
+              "input": [lines[mis]], "impl": out1[mis] if mis < len(out1) else None, "model": out2[mis] if mis < len(out2) else None}
+        # search for a failing input of the property itself: a disagreement in which the code freezes a piece the proved
+        # function does not, taken from a game whose capture-free continuation moves that very piece
+        witness = None
+        for i in range(mis, min(len(out1), len(out2), len(meta))):
+            a, b = out1[i].split(), out2[i].split()
+            if a == b or len(a) != 2 or len(b) != 2 or not (a[0].isdigit() and b[0].isdigit()): continue
+            extra = int(a[0]) & ~int(b[0])
+            g, k = meta[i]
+            nfin = len(g.moves)
+            if not extra or sum(fen_men(g.fens[k])) != sum(fen_men(g.fens[nfin])): continue
+            for j in range(k, nfin):
+                f = (ord(g.moves[j][0]) - 97) + 8 * (int(g.moves[j][1]) - 1)
+                if extra >> f & 1:
+                    witness = (i, g, k, j, f); break
+            if witness: break
+        if witness:
+            i, g, k, j, f = witness
+            rp.update({"input": [lines[i]], "impl": out1[i], "model": out2[i], "game": g.moves, "position_after_ply": k, "frozen_square": f, "moved_at_ply": j})
+            ctx.violation(f"computeDeadlockedPieces declares the piece on square {f} of `{g.fens[k]}` unable to ever move (no capture remains up to the game's end), "
+                          f"but the legal game itself moves it at ply {j} ({g.moves[j]}); the proved function does not freeze it: `{lines[i]}` impl `{out1[i]}` model `{out2[i]}`", rp)
+        else:
+            ctx.violation(f"pg-deadlock: computeDeadlockedPieces and the proved model disagree on `{lines[mis]}`: impl `{rp['impl']}` model `{rp['model']}`", rp, no_input=True)
+
+
 def check_bound_output(o, remaining, capbound):
     """property predicates on one `pg bound` reply; returns list of (kind, message)"""
     bad = []
@@ -478,6 +554,7 @@ def run(ctx):
             seen.add(key); pairs.append((fa, fb))
         if len(pairs) >= (16 if quick else 60) and len(seen) == 4: break
     kernel_diff(ctx, pairs, quick)
+    deadlock_diff(ctx, games + xgames, quick)
     ctx.log("kernel differential done")
 
     # ---- (b1) ProofGame API on (prefix, final) pairs -----------------------------------------------------------
